@@ -1,26 +1,32 @@
 #!/bin/bash
-# Confirms a seeded defect produced by a sub-agent in its scratch worktree:
-#   tools/verify_seed.sh <Cxx> <n>
-# 1. patch applies on the clean worktree  2. build (with and without -tags verif) + existing suite pass with it
-# 3. the demo fails with it  4. the demo passes without it.   Prints a one-line summary; exit 0 iff all hold.
+# Confirms a saved seeded defect against the CURRENT /repo HEAD in a scratch clone (removed afterwards):
+#   tools/verify_seed.sh seeded/<id>
+# 1. patch applies  2. builds with and without -tags verif, existing suite green with it
+# 3. the demonstration fails with it  4. passes without it.  Exit 0 iff all hold; updates meta.json "confirmed".
 export GOFLAGS=-mod=mod GOPROXY=off GOSUMDB=off GOTOOLCHAIN=local
-id=$1; n=$2; wt=/tmp/wt/$id; sd=$wt/_seeded
-cd $wt || exit 2
-git checkout -q -- . ; rm -f test/zz_seeded_*_test.go
-[ -f $sd/patch$n.diff ] || { echo "$id-$n: no patch"; exit 2; }
-git apply --check $sd/patch$n.diff || { echo "$id-$n: patch does not apply"; exit 1; }
-git apply $sd/patch$n.diff
-ok=1
-go build ./... >/dev/null 2>&1 && go build -tags verif ./... >/dev/null 2>&1 || { echo "$id-$n: BUILD FAILS"; ok=0; }
-suite=$(go test -vet=off -count=1 -timeout 25m ./... 2>&1 | grep -E "^(FAIL|ok|---)" | grep -c "^FAIL\|^--- FAIL")
-[ "$suite" = "0" ] || { echo "$id-$n: EXISTING SUITE FAILS with patch"; ok=0; }
-cp $sd/demo${n}_test.go test/zz_seeded_${n}_test.go
-tests=$(grep -oE "^func (Test[A-Za-z0-9_]+)" test/zz_seeded_${n}_test.go | awk '{print $2}' | paste -sd'|')
-with=$(go test -vet=off -count=1 -timeout 10m -run "^($tests)\$" ./test/ 2>&1 | tail -3 | grep -c "^FAIL\|^--- FAIL\|panic:")
-git checkout -q -- . 
+sd=$(readlink -f "$1"); id=$(basename $sd)
+scratch=$(mktemp -d /tmp/seedverify.XXXXXX); trap 'rm -rf "$scratch"' EXIT
+git clone -q /repo $scratch/repo && cd $scratch/repo || exit 2
+head=$(git rev-parse --short HEAD)
+git apply --check $sd/patch.diff 2>/dev/null || { echo "$id: patch does not apply on $head"; exit 1; }
+git apply $sd/patch.diff
+ok=1; why=""
+go build ./... >/dev/null 2>&1 && go build -tags verif ./... >/dev/null 2>&1 || { why="$why build-fails"; ok=0; }
+suite=$(go test -vet=off -count=1 -timeout 25m ./... 2>&1 | grep -c "^FAIL\|^--- FAIL")
+[ "$suite" = "0" ] || { why="$why existing-suite-fails-with-patch"; ok=0; }
+cp $sd/demo_test.go test/zz_seeded_demo_test.go
+tests=$(grep -oE "^func (Test[A-Za-z0-9_]+)" test/zz_seeded_demo_test.go | awk '{print $2}' | paste -sd'|')
+with=$(go test -vet=off -count=1 -timeout 10m -run "^($tests)\$" ./test/ 2>&1 | tail -5 | grep -c "^FAIL\|^--- FAIL\|panic:")
+git checkout -q -- .
 without=$(go test -vet=off -count=1 -timeout 10m -run "^($tests)\$" ./test/ 2>&1 | tail -3 | grep -c "^ok")
-rm -f test/zz_seeded_*_test.go
-[ "$with" != "0" ] || { echo "$id-$n: demo does NOT fail with the patch"; ok=0; }
-[ "$without" != "0" ] || { echo "$id-$n: demo does NOT pass without the patch"; ok=0; }
-if [ $ok = 1 ]; then echo "$id-$n: CONFIRMED (suite green with patch; demo [$tests] fails with / passes without)"; exit 0; fi
-exit 1
+[ "$with" != "0" ] || { why="$why demo-does-not-fail-with-patch"; ok=0; }
+[ "$without" != "0" ] || { why="$why demo-does-not-pass-without-patch"; ok=0; }
+python3 - "$sd/meta.json" "$ok" "$head" "$why" <<'PY'
+import json,sys
+f,ok,head,why=sys.argv[1:5]
+m=json.load(open(f))
+m['confirmed']={"by":"tools/verify_seed.sh","against_repo_head":head,"all_conditions_hold":ok=="1","problems":why.strip()}
+json.dump(m,open(f,'w'),indent=1)
+PY
+if [ $ok = 1 ]; then echo "$id: CONFIRMED on $head (suite green with patch; demo [$tests] fails with / passes without)"; exit 0; fi
+echo "$id: NOT CONFIRMED on $head:$why"; exit 1
